@@ -327,6 +327,40 @@ theorem sky_visual_preserved (w : Wcs Sky α) (hs : ∀ q : Sky, w.toSky (w.toPi
     (r : SkyR Sky α) : ((r.toPixel w).toSky w).visuals = r.visuals := by
   rw [roundtrip_sky_pix_sky_exact w hs hr r]
 
+/-! ### operators: any callable, the order of the two answers matters -/
+
+/-- the three operators of the public API are commutative — which is why swapping the two component answers is
+invisible with `&`, `|`, `^` — … -/
+theorem rop_std_comm (o : BoolOp) (a b : Bool) : (ROp.std o).apply a b = (ROp.std o).apply b a := by
+  cases o <;> cases a <;> cases b <;> rfl
+
+/-- … an arbitrary callable is not: the set difference `a & ~b`. -/
+theorem rop_table_not_comm : (ROp.table false false true false).apply true false
+    ≠ (ROp.table false false true false).apply false true := by decide
+
+/-- for expressions whose operators are all among `&`, `|`, `^`, membership is the shared expression model's. -/
+theorem contains_toPReg (r : PixR α) (g : PReg α) (h : r.toPReg = some g) (p : Pt α) :
+    r.contains p = g.contains p := by
+  induction r generalizing g with
+  | compound op a b m v iha ihb =>
+    cases op with
+    | table ff ft tf tt => simp [PixR.toPReg] at h
+    | std o =>
+      simp only [PixR.toPReg] at h
+      cases ha : a.toPReg with
+      | none => simp [ha] at h
+      | some ga =>
+        cases hb : b.toPReg with
+        | none => simp [ha, hb] at h
+        | some gb =>
+          simp only [ha, hb, Option.some.injEq] at h
+          subst h
+          simp only [PixR.contains, PReg.contains, iha ga ha, ihb gb hb, ROp.apply]
+  | _ =>
+    simp only [PixR.toPReg, Option.some.injEq] at h
+    subst h
+    simp only [PixR.contains]
+
 /-! ### membership -/
 
 /-- **`SkyRegion.contains` is the pixel image's answer on the converted position** — for every
@@ -336,21 +370,20 @@ theorem sky_contains_eq (w : Wcs Sky α) (r : SkyR Sky α) (q : Sky) :
     r.contains w q = (r.toPixel w).contains (w.toPix q) := by
   induction r with
   | compound op r1 r2 m v ih1 ih2 =>
-    simp only [SkyR.contains, ih1, ih2, SkyR.toPixel, PixR.mkCompound, PixR.contains, PixR.toPReg,
-      PReg.contains]
+    simp only [SkyR.contains, ih1, ih2, SkyR.toPixel, PixR.mkCompound, PixR.contains]
   | point c m v =>
-    simp only [SkyR.contains, SkyR.toPixel, PixR.contains, PixR.toPReg, PReg.contains, metaOr_some,
+    simp only [SkyR.contains, SkyR.toPixel, PixR.contains, PReg.contains, metaOr_some,
       C01.empty_contains_nothing]
   | line a b m v =>
-    simp only [SkyR.contains, SkyR.toPixel, PixR.contains, PixR.toPReg, PReg.contains, metaOr_some,
+    simp only [SkyR.contains, SkyR.toPixel, PixR.contains, PReg.contains, metaOr_some,
       C01.empty_contains_nothing]
   | text c t m v =>
-    simp only [SkyR.contains, SkyR.toPixel, PixR.contains, PixR.toPReg, PReg.contains, metaOr_some,
+    simp only [SkyR.contains, SkyR.toPixel, PixR.contains, PReg.contains, metaOr_some,
       C01.empty_contains_nothing]
   | _ => simp only [SkyR.contains]
 
 /-- the include flag acts on a sky region exactly as on its pixel image: complement. -/
-theorem sky_compound_contains (w : Wcs Sky α) (op : BoolOp) (a b : SkyR Sky α) (m : Meta) (v : Visual α)
+theorem sky_compound_contains (w : Wcs Sky α) (op : ROp) (a b : SkyR Sky α) (m : Meta) (v : Visual α)
     (q : Sky) :
     (SkyR.compound op a b m v).contains w q
       = withInclude m.inc (op.apply ((a.toPixel w).contains (w.toPix q)) ((b.toPixel w).contains (w.toPix q))) := by
@@ -490,7 +523,7 @@ theorem pix_contains_via_sky_full_holds : pix_contains_via_sky_full :=
 def witnessMeta : Meta := ⟨.pyFalse, [("label", "zz")]⟩
 def witnessVisual : Visual ℚ := ⟨none, [("color", "blue")]⟩
 def witness : PixR ℚ :=
-  PixR.mkCompound (.circle ⟨0, 0⟩ 2 Meta.empty Visual.empty) (.circle ⟨1, 0⟩ 2 Meta.empty Visual.empty) .and
+  PixR.mkCompound (.circle ⟨0, 0⟩ 2 Meta.empty Visual.empty) (.circle ⟨1, 0⟩ 2 Meta.empty Visual.empty) (.std .and)
     (some witnessMeta) (some witnessVisual)
 
 /-- the identity WCS on `ℚ²`: scale 1 arcsec / pixel, north = +y. -/
